@@ -189,6 +189,7 @@ func c35(r *core.Run) {
 		})
 		r.Floor("C35.I1", "slicings of the token in decrypt", n, 2)
 	}
+	c35More(r)
 }
 
 // roleInVariadic: the variadic slice is a fresh array whose element stores include the
